@@ -176,6 +176,26 @@ func (r *c14Run) flatten(m map[int]*c14E) []int64 {
 // exec runs one method call of the real implementation on thread t and logs
 // its call/return events together with the model operation(s) it amounts to.
 func (t *c14Thread) exec(o c14Op, co *coThread) {
+	// a panic of the library is an observable: the open call "returns" [-99]
+	defer func() {
+		if p := recover(); p != nil {
+			if t.open >= 0 {
+				if t.ops[t.open] == "" {
+					t.ops[t.open] = "Length"
+				}
+				t.r.log(fmt.Sprintf("OR %d %d [(-99)]", t.id, t.open))
+				t.open = -1
+			}
+			if co != nil {
+				co.beforePark = nil
+				co.afterResume = nil
+			}
+		}
+	}()
+	t.execOp(o, co)
+}
+
+func (t *c14Thread) execOp(o c14Op, co *coThread) {
 	r := t.r
 	m := r.c.Map
 	r.cur = t
